@@ -90,8 +90,9 @@ int cmdRun(int argc, char** argv) {
 	size_t maxShapes = strtoul(argv[2], nullptr, 10);
 	auto files = sampleFiles();
 	{ Out trunc(outPath); }
-	const char* dests[] = {"same", "fresh", "other", "partial-skeleton", "skeleton-root-node", "model-space-flag", "empty-bone-slot", "parent-stored-later"};
-	const size_t ND = 8;
+	const char* dests[] = {"same", "fresh", "other", "partial-skeleton", "skeleton-root-node", "model-space-flag", "empty-bone-slot", "parent-stored-later",
+						   "strips-shape", "special-bones"};
+	const size_t ND = 10;
 	size_t crashes = runForkedCases(
 		files.size() * ND, outPath, 300,
 		[&](size_t i, std::string& out) {
@@ -101,8 +102,9 @@ int cmdRun(int argc, char** argv) {
 			if (probe.Load(samplePath(fn)) != 0) return;
 			auto names = probe.GetShapeNames();
 			size_t count = 0;
-			for (auto& shapeName : names) {
+			for (auto& shapeName0 : names) {
 				if (count++ >= maxShapes) break;
+				std::string shapeName = shapeName0;
 				NifFile src;
 				if (src.Load(samplePath(fn)) != 0) return;
 				NifFile other;
@@ -160,6 +162,48 @@ int cmdRun(int argc, char** argv) {
 					src.SetParentNode(sh, grp);
 					dst = &src;
 				}
+				else if (destName == "strips-shape") {
+					// the model gets an NiTriStrips shape (no sample has one); it is the shape that is cloned, into a fresh model
+					// and (every other file) within the model
+					auto& v = src.GetHeader().GetVersion();
+					if (count != 1 || v.Stream() > 83 || !src.GetRootNode()) continue;
+					addStripsShape(src);
+					NifFile re;
+					if (loadFromString(re, saveToString(src, false, false)) != 0) continue;
+					src.CopyFrom(re);
+					shapeName = "Strips";
+					other.Create(src.GetHeader().GetVersion());
+					dst = (i / ND) % 2 ? &src : &other;
+				}
+				else if (destName == "special-bones") {
+					// two bones of the skin are nodes of derived kinds (a value node, a billboard node); fresh destination
+					NiShape* sh = byName(src, shapeName);
+					std::vector<std::string> bones;
+					if (!sh || src.GetShapeBoneList(sh, bones) < 2) continue;
+					auto& sh_hdr = src.GetHeader();
+					for (int bi = 0; bi < 2; bi++) {
+						auto node = src.FindBlockByName<NiNode>(bones[size_t(bi)]);
+						if (!node || node == src.GetRootNode() || std::string(node->GetBlockName()) != "NiNode") continue;
+						uint32_t id = src.GetBlockID(node);
+						if (bi == 0) {
+							auto nb = std::make_unique<BSValueNode>();
+							*static_cast<NiNode*>(nb.get()) = *node;
+							nb->value = 7;
+							sh_hdr.ReplaceBlock(id, std::move(nb));
+						}
+						else {
+							auto nb = std::make_unique<NiBillboardNode>();
+							*static_cast<NiNode*>(nb.get()) = *node;
+							nb->billboardMode = BillboardMode(3);
+							sh_hdr.ReplaceBlock(id, std::move(nb));
+						}
+					}
+					NifFile re;
+					if (loadFromString(re, saveToString(src, false, false)) != 0) continue;
+					src.CopyFrom(re);
+					other.Create(src.GetHeader().GetVersion());
+					dst = &other;
+				}
 				else if (destName == "model-space-flag") {
 					// Fallout 4 and later: a shader flagged for model-space normals on a shape that carries normals (in the
 					// Skyrim versions the library drops the normals of such a clone by design)
@@ -199,6 +243,8 @@ int cmdRun(int argc, char** argv) {
 					ContentIds gid;
 					std::string srcGeom = projectShape(src, srcShape, gid);
 					std::string cloneName = shapeName + "_clone" + std::to_string(rep);
+					std::set<std::string> nodesBefore;
+					for (auto n : dst->GetNodes()) nodesBefore.insert(n->name.get());
 					NiShape* clone = dst->CloneShape(srcShape, cloneName, dst == &src ? nullptr : &src);
 					JObj ev;
 					ev.add("e", "clone").add("file", fn).add("shape", shapeName).add("dest", dest).add("rep", rep).add("cloned", clone != nullptr);
@@ -220,6 +266,18 @@ int cmdRun(int argc, char** argv) {
 						for (auto& b : cb)
 							if (!dst->FindBlockByName<NiNode>(b)) exist = false;
 						ev.raw("srcBones", jsb.done()).raw("cloneBones", jcb.done()).add("bonesExist", exist);
+						// the bone nodes that the clone brought along are nodes of the same kind as the source's
+						{
+							JArr sk, ck;
+							for (auto& b : cb) {
+								if (nodesBefore.count(b)) continue;
+								auto sn = src.FindBlockByName<NiNode>(b);
+								auto dn = dst->FindBlockByName<NiNode>(b);
+								sk.add(sn ? sn->GetBlockName() : "(none)");
+								ck.add(dn ? dn->GetBlockName() : "(none)");
+							}
+							ev.raw("srcBoneKinds", sk.done()).raw("cloneBoneKinds", ck.done());
+						}
 						// where the clone hangs: below the source's parent within one model, below the root of another model
 						{
 							auto sp = src.GetParentNode(srcShape);
@@ -252,13 +310,37 @@ int cmdRun(int argc, char** argv) {
 						ev.add("reloadHasClone", ok);
 						// ... and the reloaded clone is the clone: compared with the destination reloaded before (normal form)
 						bool reloadSame = true;
+						std::string reloadedPositions;
 						if (ok) {
 							JV rb = jparse(projectShape(re, byName(re, cloneName), gid));
+							reloadedPositions = toJson(rb["pcid"]);
 							NifFile copy2(*dst), re2;
 							if (loadFromString(re2, saveToString(copy2, true, true)) == 0 && byName(re2, cloneName))
 								reloadSame = toJson(rb["tris"]) == toJson(b["tris"]) && toJson(rb["lens"]) == toJson(b["lens"]) && toJson(rb["pcid"]) == toJson(b["pcid"]);
 						}
 						ev.add("reloadSame", reloadSame);
+						// editing the clone edits the clone only, and the edit is what the destination saves
+						{
+							std::vector<Vector3> verts;
+							bool srcSame = true, editReloads = true;
+							long long srcAfterEdit = srcBefore;
+							if (dst->GetVertsForShape(clone, verts) && !verts.empty()) {
+								for (auto& p : verts) p.x += 1.0f + std::fabs(p.x) * 0.125f; // (more than a half-float step)
+								dst->SetVertsForShape(clone, verts);
+								JV sa = jparse(projectShape(src, byName(src, shapeName), gid));
+								srcSame = toJson(sa["pcid"]) == toJson(a["pcid"]);
+								if (dst != &src) srcAfterEdit = modelId(src, ids);
+								NifFile copy3(*dst), re3;
+								if (ok && loadFromString(re3, saveToString(copy3, true, true)) == 0 && byName(re3, cloneName)) {
+									// (the stored positions may be rounded ones: what is asked is that they are the moved ones)
+									JV rc = jparse(projectShape(re3, byName(re3, cloneName), gid));
+									editReloads = toJson(rc["pcid"]) != reloadedPositions;
+								}
+								else if (ok)
+									editReloads = false;
+							}
+							ev.add("sourceKeptItsVertices", srcSame).add("srcAfterEdit", srcAfterEdit).add("editReloads", editReloads);
+						}
 					}
 					out += ev.done() + "\n";
 				}
